@@ -44,6 +44,8 @@ type check struct {
 	origins  []origin
 	cssLists []listSpace
 
+	shLists [][]sfn // shared-rule family
+
 	svgFns   []fn
 	svgCore  []fn
 	svgLists []listSpace
@@ -181,6 +183,20 @@ func (c *check) Init(tier string, seed int64) engine.Space {
 		func(u int64) any {
 			return "none keyword, case of function names, white space and comments inside / between functions"
 		}})
+	// ---- (ii') one rule shared by several blocks with different font sizes
+	c.shLists = sharedLists()
+	nSh := c.sharedCases()
+	c.sections = append(c.sections, section{"shared-rule", (nSh + cssBatch - 1) / cssBatch,
+		func(u int64, ctx *engine.Ctx) {
+			for k := u * cssBatch; k < (u+1)*cssBatch && k < nSh; k++ {
+				c.runShared(k, ctx)
+			}
+		},
+		func(u int64) any {
+			k := u * cssBatch
+			nS, nO := int64(len(sharedStructs)), int64(len(sharedOrigins))
+			return map[string]any{"first_rule": ".t{transform:" + sharedText(c.shLists[k/nS/nO]) + "}", "structure": sharedStructs[k%nS], "cases": cssBatch}
+		}})
 	// ---- (iii) svg
 	var svgCases int64
 	nS := int64(len(svgStyles))
@@ -266,6 +282,7 @@ func (c *check) Init(tier string, seed int64) engine.Space {
 			"css_core_functions":   names(c.cssCore),
 			"css_transform_origin": onames,
 			"css_renders":          cssCases,
+			"shared_rule":          map[string]any{"documents": nSh, "transform_lists": len(c.shLists), "structures": sharedStructs, "origins": []string{"(initial)", "transform-origin:1em 1ex"}, "blocks": "a: font-size 10px 40x20; b: 30px 60x30; c: 15px 20x10; html 20px; Ahem: ex=.8em ch=1em"},
 			"svg_functions":        names(c.svgFns),
 			"svg_core_functions":   names(c.svgCore),
 			"svg_spellings":        snames,
